@@ -743,6 +743,10 @@ ExitStatus Builder::Build(string* err) {
         }
 
         if (!StartEdge(edge, err)) {
+          // The edge never reached the command runner, so Cleanup() does
+          // not know about it: hand back the slot FindWork() acquired.
+          if (jobserver_.get())
+            jobserver_->Release(std::move(edge->job_slot_));
           Cleanup();
           status_->BuildFinished();
           return ExitFailure;
@@ -798,6 +802,10 @@ ExitStatus Builder::Build(string* err) {
         bool command_finished = FinishCommand(cc, err);
         SetFailureCode(result.exit_status());
         if (!command_finished) {
+          // The edge is no longer active in the runner; its slot is still
+          // held if FinishCommand() bailed out before Plan::EdgeFinished().
+          if (jobserver_.get())
+            jobserver_->Release(std::move(cc.edge->job_slot_));
           Cleanup();
           status_->BuildFinished();
           if (result.success()) {
